@@ -228,8 +228,16 @@ def check_written_once(idx, run, cls):
         loc(cls.module, ifunc))
 
 
+
+GUARDED = [
+    ('ParallelLoopTrans', 'validate'),
+    ('OMPLoopTrans', 'validate'),
+]
+
 def check(idx, run):
     run.explanation = __doc__
+    from sa.guards import check_guards
+    check_guards(idx, run, "C09.R6", GUARDED)
     from rules.common_parallel import check_fresh_unknown
     check_fresh_unknown(idx, run, "C09.R5")
     check_generic_validate(idx, run, "C09.R1")
